@@ -389,6 +389,48 @@ theorem writes_before_a_sync_survive (hc : CodecOK crc enc dec) (mode : SyncMode
     · exact sync_covers crc enc mode pre post
     · rfl
 
+/-- **A session in any sync mode on a recovered store is a round of the crash model.**  From ANY
+    reachable disk state, recover, then run ANY script of operations and explicit syncs in ANY
+    mode (`Immediate`, `Batched m`, `Manual`) on the recovered store with the log reopened
+    (tail repaired).  Every crash the sync state allows (any cut at or beyond the synced length)
+    leaves a disk state of the crash model again, in which the first `a` operations count as
+    acknowledged for EVERY `a` whose records end at or before the synced length — so
+    `recover_then_write_full`, `checkpoint_crash_safe`, `scan_lists_only_readable_keys`,
+    `bloom_recovery_is_transparent` apply to it and to everything that follows: the guarantee is
+    kept for everything written after a recovery, in every mode. -/
+theorem session_in_any_mode_is_a_round (hc : CodecOK crc enc dec) {snap : Option Store} {f : Bytes}
+    {tr : Trace} (h : Reach crc enc dec snap f tr) (mem0 : Store) (hr : recover crc dec snap f = .ok mem0)
+    (mode : SyncMode) (acts : List Act) (hfit : Fits enc (runOps mem0 (opsOf acts)).1) (n a : Nat)
+    (ha : a ≤ (opsOf acts).length)
+    (hsync : (openRepair f ++ logBytes crc enc (runOps mem0 ((opsOf acts).take a)).1).length
+      ≤ (acts.foldl (Sys.act crc enc) ⟨mode, Wal.openOn f, mem0, snap⟩).wal.syncedLen) :
+    Reach crc enc dec snap ((acts.foldl (Sys.act crc enc) ⟨mode, Wal.openOn f, mem0, snap⟩).crashFile n)
+      (tr ++ [(opsOf acts, a)]) ∧
+    ∃ H r, PrefixOf (tr ++ [(opsOf acts, a)]) H ∧
+      recover crc dec snap ((acts.foldl (Sys.act crc enc) ⟨mode, Wal.openOn f, mem0, snap⟩).crashFile n) = .ok r ∧
+      FullEq r (specRun [] H) := by
+  have hfile := (acts_file_mem crc enc ⟨mode, Wal.openOn f, mem0, snap⟩ acts).1
+  have h0 : (⟨mode, Wal.openOn f, mem0, snap⟩ : Sys).wal.syncedLen
+      ≤ (⟨mode, Wal.openOn f, mem0, snap⟩ : Sys).wal.file.length := Nat.le_refl _
+  have hmono := (acts_synced_le crc enc ⟨mode, Wal.openOn f, mem0, snap⟩ acts h0).1
+  have hreach : Reach crc enc dec snap
+      ((acts.foldl (Sys.act crc enc) ⟨mode, Wal.openOn f, mem0, snap⟩).crashFile n) (tr ++ [(opsOf acts, a)]) := by
+    unfold Sys.crashFile
+    rw [hfile]
+    exact Reach.round mem0 (opsOf acts) a _ h hr hfit
+      (Nat.le_trans hmono (Nat.le_max_right _ _)) ha (Nat.le_trans hsync (Nat.le_max_right _ _))
+  exact ⟨hreach, recover_then_write_full hc hreach⟩
+
+/-- the hypotheses of `session_in_any_mode_is_a_round` on the empty disk, `Manual` mode,
+    `put; sync; put`: the first operation is acknowledged (its 14 bytes are synced), the second is not -/
+example :
+    let acts := [Act.op (.put [107] ⟨[1], none⟩), .sync, .op (.put [106] ⟨[2], none⟩)]
+    let sy := acts.foldl (Sys.act (fun _ => 0) toyEnc) ⟨.manual, Wal.openOn [], Store.empty, none⟩
+    Reach (fun _ => 0) toyEnc toyDec none [] [] ∧ recover (fun _ => 0) toyDec none [] = .ok Store.empty ∧
+    (openRepair [] ++ logBytes (fun _ => 0) toyEnc (runOps Store.empty ((opsOf acts).take 1)).1).length
+      ≤ sy.wal.syncedLen ∧ sy.wal.syncedLen = 14 ∧ sy.wal.file.length = 28 :=
+  ⟨.init, by decide +kernel, by decide +kernel, by decide +kernel, by decide +kernel⟩
+
 /-- **`Batched m` leaves fewer than `m` records unacknowledged**: after any script on a fresh store
     the unsynced part of the log is exactly its last `pending` records, and `pending < max m 1`
     (`maybe_sync` fires when `pending_sync_count >= max_entries`; `m = 0` or `1` sync every
@@ -726,6 +768,34 @@ theorem checkpoint_unsynced_tail_witness :
       have ht : ops.take (n + 3) = ops := List.take_of_length_le (by simp [ops])
       rw [ht] at hme
       exact absurd (hme k) (by decide +kernel)
+
+/-- **A durable write that overlaps a checkpoint is lost** (candidate finding
+    `tensor_store.slab_router.checkpoint/concurrent_durable_write_lost_by_truncate`; needs a second
+    thread, so it is outside the sequential quantifier of this property and is reported as an
+    observation).  `checkpoint` releases the log mutex between its fsync, the snapshot and the
+    marker + truncate steps.  A `put_durable` of another thread that runs after the snapshot was
+    taken and before the log is truncated is logged, fsynced and acknowledged (`Immediate`), is
+    not in the snapshot, and its record is wiped by the truncation: once the checkpoint has
+    returned, the live store answers the key but recovery from the disk, at every cut, does not.
+    (`checkpoint_crash_safe` assumes the four steps run with no write in between, which is what
+    holding the mutex across them gives: proposed/C02-checkpoint-holds-log-mutex.diff.) -/
+theorem checkpoint_concurrent_write_lost_witness :
+    let crc : Bytes → Nat := fun _ => 0
+    let s1 := Sys.op crc toyEnc (Sys.fresh .immediate) (.put [97] ⟨[1], none⟩)
+    let s2 := s1.ckptSync.ckptSnapshot
+    let s3 := Sys.op crc toyEnc s2 (.put [107] ⟨[2], none⟩)
+    let s4 := (s3.ckptMarker crc toyEnc 0).ckptTruncate
+    s3.wal.syncedLen = s3.wal.file.length ∧ get s4.mem [107] = some ⟨[2], none⟩ ∧
+    ∀ n, ∃ r, recover crc toyDec s4.snap (s4.crashFile n) = .ok r ∧ get r [107] = none ∧
+      get r [97] = some ⟨[1], none⟩ := by
+  intro crc s1 s2 s3 s4
+  refine ⟨by decide +kernel, by decide +kernel, fun n => ?_⟩
+  have hcf : s4.crashFile n = [] := by
+    simp [s4, Sys.ckptTruncate, Wal.truncate, Sys.crashFile]
+  rw [hcf]
+  obtain ⟨r, hr, hp⟩ := exists_ok_of_okAnd (x := recover crc toyDec s4.snap [])
+    (p := fun r => decide (get r [107] = none ∧ get r [97] = some ⟨[1], none⟩)) (by decide +kernel)
+  exact ⟨r, hr, of_decide_eq_true hp⟩
 
 /-- **An `emb:` key stored without a vector read another key's embedding** (class
     `tensor_store.slab_router.recover/stale_entity_id_embedding`, fixed by repo e374d74b;
